@@ -117,16 +117,16 @@ var specs = map[string]spec{
 	},
 	"C10": {
 		World: "e2e", Level: "exploration", QuickS: 40, ThoroughS: 900,
-		Rule: "cases = nbhttp.Engine in IOMod {NonBlocking, Blocking, Mixed} x epoll mode {LT, ET, ET+ONESHOT} x 1-2 pollers x executor {inline, taskpool of 2 / 4}, 1-4 concurrent raw simulated client connections, each with 1-4 requests (HTTP/1.0 / 1.1, Connection variants, Content-Length or chunked request bodies up to 20000 bytes, response bodies from {0,1,100,1000,4096,65535,65536,70000}, handler sleeps / yields / Flush mid-body), pipelining window 1-4, client write size {1,7,64,all}; kernel: send capacity 64B-256KiB, in-flight delivery, short reads/writes, withheld readiness; oracle per connection: the received stream decodes (http.ReadResponse) to exactly one answer per written request, in order, each echoing its request's unique id with the keyed body; the handler sees the keyed request body; connection kept / closed as version and Connection header dictate; no id of another connection; handlers of one connection never overlap; non-trivial = >= 2 connections and a pipelined request; distinct = context-switch sequence hash",
-		Real: []string{"nbhttp.Engine, Parser, ServerProcessor, Response, lmux, nbio.Engine/Conn/poller, taskpool (transformed real code)", "net/http types and http.ReadResponse as client-side decoder"},
-		Stub: append([]string{"TLS: NOT explored (plain TCP only)", "nbhttp.Client: NOT explored in this check (server side only)"}, stubKernel...),
-		Assumptions: append([]string{"requests pipelined behind an exchange that closes the connection may be dropped", "the client clause of C10 (nbhttp.Client callbacks) and TLS are not covered; the evidence says so"}, assumeKernel...),
+		Rule: "three quarters of the run indices (server clauses): cases = nbhttp.Engine in IOMod {NonBlocking, Blocking, Mixed} x epoll mode {LT, ET, ET+ONESHOT} x 1-2 pollers x executor {inline, taskpool of 2 / 4}, 1-4 concurrent raw simulated client connections, each with 1-4 requests (HTTP/1.0 / 1.1, Connection variants, Content-Length or chunked request bodies up to 20000 bytes, response bodies from {0,1,100,1000,4096,65535,65536,70000}, handler sleeps / yields / Flush mid-body), pipelining window 1-4, client write size {1,7,64,all}; kernel: send capacity 64B-256KiB, in-flight delivery, short reads/writes, withheld readiness; oracle per connection: the received stream decodes (http.ReadResponse) to exactly one answer per written request, in order, each echoing its request's unique id with the keyed body; the handler sees the keyed request body; connection kept / closed as version and Connection header dictate; no id of another connection; handlers of one connection never overlap; non-trivial = >= 2 connections and a pipelined request; distinct = context-switch sequence hash; 20% of these cases run over TLS (the server side is llib's TLS, transformed like nbio; the clients are crypto/tls clients); 25% of the handlers announce Content-Length and write the body in two steps. One quarter (client clause): nbhttp.Client (connection pool, MaxConnsPerHost 1-4) or nbhttp.ClientConn (pipelined) against a scripted server on the simulated kernel that answers (Content-Length / chunked, written in pieces), delays, closes before or in the middle of an answer, sends garbage or stalls; dial attempts fail as planned; 1-3 caller goroutines, 1-6 requests, Timeout / IdleConnTimeout on the simulated clock, default pool or goroutine-per-call client executor; oracles: each callback exactly once (after Client.Close and quiescence for requests still pending), never neither response nor error, a response carries the id and body of its own request",
+		Real: []string{"nbhttp.Engine, Parser, ServerProcessor, Response, Client, ClientConn, ClientProcessor, lmux, nbio.Engine/Conn/poller, taskpool, llib std/crypto/tls (transformed real code)", "net/http types and http.ReadResponse as client-side decoder"},
+		Stub: append([]string{"TLS clients: the standard library's crypto/tls (untransformed, the independent counterpart); HTTPS in nbhttp.Client, proxies and redirects: NOT explored", "scripted HTTP server of the client clause (harness code on the simulated network)"}, stubKernel...),
+		Assumptions: append([]string{"requests pipelined behind an exchange that closes the connection may be dropped", "client clause: 'an error' is allowed for any request by the statement, so a request that fails in a fault-free run is only counted (probe client_request_failed_in_fault_free_run)"}, assumeKernel...),
 	},
 	"C14": {
 		World: "e2e", Level: "exploration", QuickS: 40, ThoroughS: 900,
-		Rule: "cases = nbhttp.Engine + websocket.Upgrader in upgrade path {poller-driven (IOModNonBlocking), blocking with parser hand-over and asynchronous send queue (IOModBlocking), transferred to the poller (UpgradeAndTransferConnToPoller)} x epoll mode x 1-2 pollers x executor pool of 2 / 4; 1-3 raw simulated clients perform the HTTP upgrade, then send 0-5 masked messages (optionally fragmented, optionally in one burst immediately after the 101) while 0-4 server goroutines per connection call WriteMessage concurrently with fragmentation by MaxWebsocketFramePayloadSize in {none,16,100,1000}; connections end by client close frame, client reset, application Close or stay open; oracle: callback log matches open-start open-end (msg-start k msg-end k)* [close] with no overlap, messages in wire order exactly once (prefix if the connection ended early), close exactly once when the connection ended; the frame stream seen by the peer decodes (independent codec) into whole messages, fragments of one message contiguous, every WriteMessage that returned nil exactly once on a surviving connection, nothing from another connection; non-trivial = >= 2 concurrent writers on a connection or a close raced a callback / writer",
-		Real: []string{"nbhttp.Engine, websocket.Upgrader / Conn (all three engine upgrade paths), nbio core, taskpool (transformed real code)"},
-		Stub: append([]string{"upgrade path 'blocking with own read loop' (HandleRead, used for connections from a std net/http server): NOT explored", "TLS: NOT explored"}, stubKernel...),
+		Rule: "cases = nbhttp.Engine + websocket.Upgrader in upgrade path {poller-driven (IOModNonBlocking), blocking with parser hand-over and asynchronous send queue (IOModBlocking), transferred to the poller (UpgradeAndTransferConnToPoller), hijacked from a net/http-style server and read by the connection's own HandleRead loop (the harness plays the std server: accept, http.ReadRequest, http.Hijacker)}; permessage-deflate in both directions in 30% of the cases; wss (llib TLS transformed, crypto/tls clients) in 20% of the cases except the std path x epoll mode x 1-2 pollers x executor pool of 2 / 4; 1-3 raw simulated clients perform the HTTP upgrade, then send 0-5 masked messages (optionally fragmented, optionally in one burst immediately after the 101) while 0-4 server goroutines per connection call WriteMessage concurrently with fragmentation by MaxWebsocketFramePayloadSize in {none,16,100,1000}; connections end by client close frame, client reset, application Close or stay open; oracle: callback log matches open-start open-end (msg-start k msg-end k)* [close] with no overlap, messages in wire order exactly once (prefix if the connection ended early), close exactly once when the connection ended; the frame stream seen by the peer decodes (independent codec) into whole messages, fragments of one message contiguous, every WriteMessage that returned nil exactly once on a surviving connection, nothing from another connection; non-trivial = >= 2 concurrent writers on a connection or a close raced a callback / writer",
+		Real: []string{"nbhttp.Engine, websocket.Upgrader / Conn (all engine upgrade paths and HandleRead), compression, nbio core, taskpool, llib std/crypto/tls (transformed real code)"},
+		Stub: append([]string{"net/http.Server for the std path: played by the harness (accept, ReadRequest, Hijacker)", "TLS clients: the standard library's crypto/tls (untransformed)"}, stubKernel...),
 		Assumptions: append([]string{"the simulated client is compliant: it sends data frames only after it has received the complete 101 response, possibly immediately", "FIFO of the asynchronous send queue is judged from the peer's side (whole messages, per-writer order), not with a separate porcupine model"}, assumeKernel...),
 	},
 	"C11": {
@@ -135,7 +135,7 @@ var specs = map[string]spec{
 		Real: []string{"nbhttp.Response / Parser / BodyReader / ServerProcessor, websocket.Conn, nbhttp.Engine, nbio.Engine / Conn write queue (transformed real code)"},
 		Stub: append([]string{"allocators: ownership tracker (the seam is the public mempool.Allocator interface); it never recycles memory, so the pool's own reuse policy is not part of these runs (C20 covers it)", "transport: in-memory connections with write-failure injection (stream scenarios), simulated kernel (e2e scenarios)"}, stubCommon...),
 		Assumptions: append([]string{"leaks (buffers never returned) are counted as a probe only; the property does not demand their absence",
-			"TLS paths are not explored"}, assumeCommon...),
+			"20% of the e2e cases run over TLS (llib transformed); the TLS buffers llib allocates through its own allocator interface are not tracked"}, assumeCommon...),
 	},
 	"C20": {
 		World: "stream", Level: "exploration", QuickS: 25, ThoroughS: 600,
